@@ -69,7 +69,7 @@ func runCase(t *vlib.T, c tc) {
 // family is the law table a case belongs to (first key segment, two for the number laws)
 func family(key string) string {
 	p := strings.SplitN(key, "/", 3)
-	if len(p) >= 2 && (p[0] == "num" || p[0] == "reverse") {
+	if len(p) >= 2 && (p[0] == "num" || p[0] == "reverse" || p[0] == "nest") {
 		return p[0] + "_" + p[1]
 	}
 	return p[0]
@@ -188,8 +188,13 @@ var strElemAlpha = []string{"a", "b", "ab", "é"}
 func fmtFloat(f float64) string { return strconv.FormatFloat(f, 'f', -1, 64) }
 
 func listsOf(maxLen int, withFloats bool) []listVal {
+	return listsOfN(maxLen, withFloats, len(numAlpha))
+}
+
+// the same lists over the first nsym symbols of each alphabet only (same names)
+func listsOfN(maxLen int, withFloats bool, nsym int) []listVal {
 	var res []listVal
-	for _, v := range allVectors(len(numAlpha), maxLen) {
+	for _, v := range allVectors(nsym, maxLen) {
 		v := v
 		el := make([]string, len(v))
 		nu := make([]float64, len(v))
@@ -213,7 +218,7 @@ func listsOf(maxLen int, withFloats bool) []listVal {
 			return r
 		}})
 	}
-	for _, v := range allVectors(len(strElemAlpha), maxLen) {
+	for _, v := range allVectors(nsym, maxLen) {
 		v := v
 		el := make([]string, len(v))
 		for i, x := range v {
@@ -240,7 +245,7 @@ func listsOf(maxLen int, withFloats bool) []listVal {
 		if fl > 3 {
 			fl = 3
 		}
-		for _, v := range allVectors(len(floatAlpha), fl) {
+		for _, v := range allVectors(nsym, fl) {
 			v := v
 			el := make([]string, len(v))
 			nu := make([]float64, len(v))
@@ -912,13 +917,17 @@ func lawObservers(t *vlib.T, strs []string, lists []listVal, maps []mapVal) {
 	}
 }
 
-func lawSliceGrid(t *vlib.T, maxN int, alpha []string) {
-	type seq struct {
-		name string
-		el   []string
-		mk   func() interface{}
-		str  bool
-	}
+// the sequences of the slice grid: every string over alpha of length <= maxN and lists of n <= maxN
+// items in three Go representations
+type sliceSeq struct {
+	name string
+	el   []string
+	mk   func() interface{}
+	str  bool
+}
+
+func sliceSeqs(maxN int, alpha []string) []sliceSeq {
+	type seq = sliceSeq
 	var seqs []seq
 	for _, s := range allStrings(alpha, maxN) {
 		s := s
@@ -950,6 +959,11 @@ func lawSliceGrid(t *vlib.T, maxN int, alpha []string) {
 			return r
 		}, false})
 	}
+	return seqs
+}
+
+func lawSliceGrid(t *vlib.T, maxN int, alpha []string) {
+	seqs := sliceSeqs(maxN, alpha)
 	for _, q := range seqs {
 		n := len(q.el)
 		for start := -n - 2; start <= n+2; start++ {
@@ -1450,6 +1464,41 @@ func knownNumber(o *vlib.Outcome, got, quirk string, exactTie bool) {
 	}
 }
 
+// evalRound is the oracle of (k/10^s)|round(p, m): exact decimal arithmetic, the recorded finding
+// tolerated only where the output is exactly what double arithmetic gives (x = the nearest double)
+func evalRound(k int64, s, p int, m string, x float64, args string) func(out string) *vlib.Outcome {
+	return func(out string) *vlib.Outcome {
+		r := refRound(k, s, p, m)
+		want := fmtMin(r, p)
+		rem := k % pow10(s-p)
+		tie := rem*2 == pow10(s-p) || rem*2 == -pow10(s-p)
+		o := &vlib.Outcome{Nontrivial: rem != 0, Class: fmt.Sprintf("round/%s/p=%d/exact=%v/tie=%v/neg=%v", m, p, rem == 0, tie, k < 0)}
+		if normZero(out) != normZero(want) {
+			knownNumber(o, out, quirkRound(x, p, m), false)
+			return bad(o, "round%s of %s gives %s, exact decimal arithmetic gives %s", args, decLit(k, s), out, want)
+		}
+		return o
+	}
+}
+
+// evalFormat is the oracle of (k/10^s)|number_format(p, point, sep)
+func evalFormat(k int64, s, p, fi int, point, sep string, x float64, args string) func(out string) *vlib.Outcome {
+	return func(out string) *vlib.Outcome {
+		r := refRound(k, s, p, "common")
+		want := fmtFixed(r, p, point, sep)
+		rem := k % pow10(s-p)
+		tie := rem*2 == pow10(s-p) || rem*2 == -pow10(s-p)
+		o := &vlib.Outcome{Nontrivial: true, Class: fmt.Sprintf("format/d=%d/fmt=%d/exact=%v/tie=%v/neg=%v", p, fi, rem == 0, tie, k < 0)}
+		if normZero(out) != normZero(want) {
+			// an exact tie whose double is exact too is the half-to-even finding, everything else is
+			// the nearest double lying on the other side of the half
+			knownNumber(o, out, quirkFormat(x, p, point, sep), tie && isDyadic(k, s))
+			return bad(o, "number_format%s of %s gives %s, exact decimal arithmetic gives %s", args, decLit(k, s), out, want)
+		}
+		return o
+	}
+}
+
 func lawNumbers(t *vlib.T, s int, maxK int64) {
 	q := pow10(s)
 	for k := -maxK; k <= maxK; k++ {
@@ -1482,18 +1531,7 @@ func lawNumbers(t *vlib.T, s int, maxK int64) {
 				default:
 					args = fmt.Sprintf("(%d, '%s')", p, m)
 				}
-				runCase(t, tc{key: fmt.Sprintf("num/round/%s/%d/%s", decLit(k, s), p, m), src: "{{ " + l + "|round" + args + " }}", eval: func(out string) *vlib.Outcome {
-					r := refRound(k, s, p, m)
-					want := fmtMin(r, p)
-					rem := k % pow10(s-p)
-					tie := rem*2 == pow10(s-p) || rem*2 == -pow10(s-p)
-					o := &vlib.Outcome{Nontrivial: rem != 0, Class: fmt.Sprintf("round/%s/p=%d/exact=%v/tie=%v/neg=%v", m, p, rem == 0, tie, k < 0)}
-					if normZero(out) != normZero(want) {
-						knownNumber(o, out, quirkRound(x, p, m), false)
-						return bad(o, "round%s of %s gives %s, exact decimal arithmetic gives %s", args, decLit(k, s), out, want)
-					}
-					return o
-				}})
+				runCase(t, tc{key: fmt.Sprintf("num/round/%s/%d/%s", decLit(k, s), p, m), src: "{{ " + l + "|round" + args + " }}", eval: evalRound(k, s, p, m, x, args)})
 			}
 			for fi, f := range []struct{ point, sep string }{{".", ","}, {",", "."}, {".", ""}, {"", ""}} {
 				p, fi, f := p, fi, f
@@ -1508,20 +1546,7 @@ func lawNumbers(t *vlib.T, s int, maxK int64) {
 					args = "" // no argument at all: 0 decimals, '.', ','
 					f.point, f.sep = ".", ","
 				}
-				runCase(t, tc{key: fmt.Sprintf("num/format/%s/%d/%d", decLit(k, s), p, fi), src: "{{ " + l + "|number_format" + args + " }}", eval: func(out string) *vlib.Outcome {
-					r := refRound(k, s, p, "common")
-					want := fmtFixed(r, p, f.point, f.sep)
-					rem := k % pow10(s-p)
-					tie := rem*2 == pow10(s-p) || rem*2 == -pow10(s-p)
-					o := &vlib.Outcome{Nontrivial: true, Class: fmt.Sprintf("format/d=%d/fmt=%d/exact=%v/tie=%v/neg=%v", p, fi, rem == 0, tie, k < 0)}
-					if normZero(out) != normZero(want) {
-						// an exact tie whose double is exact too is the half-to-even finding, everything else is
-						// the nearest double lying on the other side of the half
-						knownNumber(o, out, quirkFormat(x, p, f.point, f.sep), tie && isDyadic(k, s))
-						return bad(o, "number_format%s of %s gives %s, exact decimal arithmetic gives %s", args, decLit(k, s), out, want)
-					}
-					return o
-				}})
+				runCase(t, tc{key: fmt.Sprintf("num/format/%s/%d/%d", decLit(k, s), p, fi), src: "{{ " + l + "|number_format" + args + " }}", eval: evalFormat(k, s, p, fi, f.point, f.sep, x, args)})
 			}
 		}
 	}
@@ -1590,12 +1615,13 @@ func main() {
 		Rule: "one law table per filter, each law on a full grid: all strings of length <= 5 (quick 4) over {a B space é ß 日 newline}; the case laws on every code point (quick: BMP); all lists of length <= 4 (quick 3) " +
 			"over 4 numbers / 4 strings / 4 floats as []interface{}, []int, []string, []float64, plus all []interface{} lists of that length of numbers of every Go numeric kind (12 kinds: mixed over one value per kind, and three values per single kind) under reverse, sort, length/first/last/slice and join|split; all maps with <= 3 entries as map[string]interface{}/int/string, map[int]string; slice(start[, length]) for every start in [-n-2, n+2] " +
 			"and length in {omitted} ∪ [-n-2, n+2] on every string over {a é 日 U+0301} (thorough: and U+0308) and on lists ([]interface{}, []string, []int) of n <= 5 (quick 4) items, literal and variable arguments; join|split over 7 separators; default over 40 values x 3 positions; " +
-			"merge over all pairs of lists of length <= 2 and maps of <= 2 entries in all type combinations; held results: for every operand r (array literal, range(a, b), every window xs|slice(s, k) of a longer list, Go slices of 5 representations with spare capacity 0/1/2/5 or grown by append, results of merge/sort/reverse/slice/split/keys; elements a permutation of a subset of 1..3, thorough 1..4) and every ordered pair (f, g) of 8 list-returning filter applications (4 merge argument forms, sort, reverse, slice(0, -1), slice(1)): a = r|f, b = r|g, then a, b, r and the longer list are all checked; the same for map merges; reverse and the observer laws also on the strings with the combining marks U+0301 / U+0308 in the alphabet (9 symbols), the slice grid with U+0301 (thorough: and U+0308); abs, round(p, method), number_format(d, point, sep) on every decimal k/1000, |k| <= 3000, p,d in 0..3 " +
+			"merge over all pairs of lists of length <= 2 and maps of <= 2 entries in all type combinations; held results: for every operand r (array literal, range(a, b), every window xs|slice(s, k) of a longer list, Go slices of 5 representations with spare capacity 0/1/2/5 or grown by append, results of merge/sort/reverse/slice/split/keys; elements a permutation of a subset of 1..3, thorough 1..4) and every ordered pair (f, g) of 8 list-returning filter applications (4 merge argument forms, sort, reverse, slice(0, -1), slice(1)): a = r|f, b = r|g, then a, b, r and the longer list are all checked; the same for map merges; nested arguments: the slice grid (n <= 3, thorough 4), join|split (one-character separators), default (21 values x 6 replacements x 4 continuations), merge (lists and maps, result going on into slice / merge), round(p, method) and number_format(d, point, sep) (k/100) evaluated with each argument and the operand written as a filter result with arguments of its own (every combination of literal / ''|default(x) / slice(..)|length / 'x..x'|slice(..) / ['', '']|join(sep) spellings; operand plain, as one more link of the chain, or inside a parenthesised expression), as the first filter chain of its template and after a chain with seven arguments (thorough: and after one with a single argument), next to the same call with literal arguments: both must equal the model and each other; reverse and the observer laws also on the strings with the combining marks U+0301 / U+0308 in the alphabet (9 symbols), the slice grid with U+0301 (thorough: and U+0308); abs, round(p, method), number_format(d, point, sep) on every decimal k/1000, |k| <= 3000, p,d in 0..3 " +
 			"(thorough k/10000, |k| <= 30000, 0..4); one fresh engine per case; non-trivial = the filter has something to do (output differs from input, index clamped, digits dropped, keys overlap, ...)",
 		Assumptions: []string{
 			"inputs larger than the stated grids are not explored",
 			"expected values come from reference code transcribed from the property statement (Twig index rules; integer arithmetic on k and powers of ten)",
 			"for a string that contains a combining mark only the involution and the length of reverse are demanded, not the order base characters and marks come out in",
+			"the spellings of an argument as a filter result use only filters whose result the statement fixes (default on '', [] and {}, slice, length, join of two empty strings, merge)",
 			"don't-care by the statement: sign of a zero result (-0), false/0/'0' under default, keys of a list, join|split of the empty list, sort of mixed-type or mixed-case or numeric-looking strings, named string types, separators that share a character with an element",
 		},
 		QuickDeadline:    150,
@@ -1631,6 +1657,7 @@ func main() {
 			lawMerge(t, listsOf(2, false), maps2)
 			lawHeld(t, nl)
 			lawHeldMaps(t, maps2)
+			lawNested(t)
 			lawSliceGrid(t, nsl, sliceAlpha)
 			if th {
 				lawCasePoints(t, 0x10FFFF)
